@@ -98,6 +98,19 @@ F.append(dict(id='F41', property='C16', status='open', clause_kind='excel_overla
               text='Excel export fails (OverlappingRange) for a valid solution in which a cumulative worker processes two tasks at overlapping times: '
                    'both bars are merged ranges of the same row [F41]'))
 
+F.append(dict(id='F27', property='C14', status='open', clause_kind='adversarial_names',
+              witness=dict(program_pretty=["tasks 'T', 'W_busy_T'; worker 'W' required by 'T'  (two roles share the z3 constant W_busy_T_start)",
+                                           "a plain worker named 'X_CumulativeWorker_1' is reported as resource 'X'"],
+                           observed='infeasible although the consistently renamed problem is feasible / resource reported under another name'),
+              text='element names are pasted into z3 constant names and split on "_CumulativeWorker_": names that contain the infixes the library uses '
+                   '(_busy_, _start, _CumulativeWorker_) or that make two roles share a constant change the constraint system or the report [F27, F28]'))
+F.append(dict(id='F23', property='C14', status='open', clause_kind='order_parking_collision',
+              witness=dict(program_pretty=['T2 optional, required directly on W1; T1 via SelectWorkers([W1, W2]); ResourceNonDelay(W1) / a sort over the busy intervals of W1',
+                                           'declare T1, T2 versus T2, T1'],
+                           observed='infeasible versus feasible: the point in the past -task_number of the unscheduled task meets the unique negative integer of the unselected worker'),
+              text='declaration order changes the schedule set when an optional task and an alternative-worker selection share a worker: an unscheduled task is parked at '
+                   '-task_number, an unselected worker at a unique negative integer, and both numberings depend on declaration order [F23]'))
+
 F.append(dict(id='F22', property='C13', status='open', clause_kind='reinit-multiobjective',
               witness=dict(case='corpus/C13/F22.json'),
               text="initialize() a second time (or a second SchedulingSolver) on a problem with two objectives raises ValueError: build_equivalent_weighted_objective registers 'EquivalentIndicator' / 'MinimizeEquivalentObjective' in the problem itself [F22]"))
